@@ -91,9 +91,9 @@ def create_signal(signal, node_list, type_enums):
         value.set('type', "signed")
 
     if float(signal.factor) != 1:
-        value.set('slope', str("%g" % signal.factor))
+        value.set('slope', str(signal.factor))
     if float(signal.offset) != 0:
-        value.set('intercept', str("%g" % signal.offset))
+        value.set('intercept', str(signal.offset))
     if float(signal.min) != 0:
         value.set('min', str("{:.16g}".format(signal.min)))
     if float(signal.max) != 1 and float(signal.max) != 0:
